@@ -1,0 +1,61 @@
+// Copyright 2022-2026 Sauce Labs Inc., all rights reserved.
+//
+// This Source Code Form is subject to the terms of the Mozilla Public
+// License, v. 2.0. If a copy of the MPL was not distributed with this
+// file, You can obtain one at https://mozilla.org/MPL/2.0/.
+
+//go:build verif
+
+// Package mheader re-exports the request modifiers of internal/martian/header
+// and the httpspec modifier stack for the verification harness in /verif
+// (Go's internal rule forbids importing them from another module).
+// It is compiled only with the build tag "verif" and adds no behaviour.
+package mheader
+
+import (
+	"errors"
+
+	"github.com/saucelabs/forwarder/internal/martian"
+	"github.com/saucelabs/forwarder/internal/martian/header"
+	"github.com/saucelabs/forwarder/internal/martian/httpspec"
+)
+
+// RequestModifier is martian.RequestModifier.
+type RequestModifier = martian.RequestModifier
+
+// RequestResponseModifier is martian.RequestResponseModifier.
+type RequestResponseModifier = martian.RequestResponseModifier
+
+// NewViaModifier is header.NewViaModifier (random boundary).
+func NewViaModifier(requestedBy string) RequestModifier {
+	return header.NewViaModifier(requestedBy)
+}
+
+// NewViaModifierWithBoundary is header.NewViaModifierWithBoundary.
+func NewViaModifierWithBoundary(requestedBy, boundary string) RequestModifier {
+	return header.NewViaModifierWithBoundary(requestedBy, boundary)
+}
+
+// NewHopByHopModifier is header.NewHopByHopModifier.
+func NewHopByHopModifier() RequestResponseModifier { return header.NewHopByHopModifier() }
+
+// NewForwardedModifier is header.NewForwardedModifier.
+func NewForwardedModifier() RequestModifier { return header.NewForwardedModifier() }
+
+// NewBadFramingModifier is header.NewBadFramingModifier.
+func NewBadFramingModifier() RequestModifier { return header.NewBadFramingModifier() }
+
+// NewStack is httpspec.NewStack; inner accepts additional modifiers.
+func NewStack(via string) (outer RequestResponseModifier, addInnerRequestModifier func(RequestModifier)) {
+	o, i := httpspec.NewStack(via)
+	return o, i.AddRequestModifier
+}
+
+// ErrorStatus reports the HTTP status carried by a martian.ErrorStatus error.
+func ErrorStatus(err error) (status int, ok bool) {
+	var es martian.ErrorStatus
+	if errors.As(err, &es) {
+		return es.Status, true
+	}
+	return 0, false
+}
